@@ -52,4 +52,47 @@ def audit(pid: str, jobs: int = 16) -> Dict[str, Any]:
             out["unmodelled_withheld"] += r["status"] == "ok"
         if r["status"] not in ("ok", "WRONG-RULE"):
             out["problems"].append(f"{r['id']}: {r['status']} {r.get('detail', '')[:160]}")
+    out.update(_seeded(pid, jobs))
+    return out
+
+
+def _seeded(pid: str, jobs: int) -> Dict[str, Any]:
+    """The confirmed sub-agent changes kept for this property (seeded/<ID>_<variant>/): each is applied to a scratch copy of the current
+    tree and must be reported by the property's rules (changes that no longer break the property on the current tree are skipped)."""
+    import json
+    import shutil
+    import subprocess
+    import tempfile
+
+    base = repo_root()
+    dirs = sorted(d for d in (VERIF / "seeded").glob(f"{pid}_*") if (d / "meta.json").exists())
+
+    def one(d: Path) -> str:
+        meta = json.loads((d / "meta.json").read_text())
+        if not meta.get("on_current_repo", {}).get("still_breaks", True):
+            return "skipped"
+        root = Path(tempfile.mkdtemp(prefix="rp2-verif-seed-"))
+        try:
+            shutil.copytree(base / "src", root / "src")
+            if (base / "setup.cfg").exists():
+                shutil.copy(base / "setup.cfg", root / "setup.cfg")
+            applied = False
+            for name in ("patch.diff", "patch_rebased.diff"):
+                if not (d / name).exists():
+                    continue
+                if subprocess.run(["patch", "-p1", "-s", "--dry-run", "-i", str(d / name)], cwd=root, capture_output=True).returncode == 0:
+                    subprocess.run(["patch", "-p1", "-s", "-i", str(d / name)], cwd=root, capture_output=True)
+                    applied = True
+                    break
+            if not applied:
+                return "skipped"
+            env = dict(os.environ, VERIF_REPO=str(root), VERIF_EVIDENCE_DIR=str(root / "evidence"))
+            rc = subprocess.run([str(VERIF / "check"), pid, "--tier", "quick"], capture_output=True, text=True, env=env, timeout=600).returncode
+            return "reported" if rc == 1 else ("withheld" if rc == 2 else "missed")
+        finally:
+            shutil.rmtree(root, ignore_errors=True)
+
+    with ThreadPoolExecutor(max_workers=max(1, min(jobs, os.cpu_count() or 1))) as ex:
+        res = list(ex.map(one, dirs))
+    out = {"seeded_changes": len(dirs), "seeded_reported": res.count("reported"), "seeded_skipped": res.count("skipped"), "seeded_problems": [f"{d.name}: {r}" for d, r in zip(dirs, res) if r in ("missed", "withheld")]}
     return out
